@@ -107,7 +107,7 @@ class Minimiser:
                     continue
                 if not isinstance(cur, list) or not cur:
                     continue
-                if path and path[-1] in self.protect:
+                if path and (path[-1] in self.protect or "knobs" in path):
                     continue
                 n = len(cur)
                 chunk = max(1, n // 2)
@@ -133,7 +133,7 @@ class Minimiser:
             for path, value in list(_paths(best[0])):
                 if not self._left():
                     break
-                if not path or path[-1] in self.protect:
+                if not path or path[-1] in self.protect or "knobs" in path:
                     continue
                 try:
                     cur = _get(best[0], path)
